@@ -455,6 +455,34 @@ func c13Systematic(tier string) []*Case {
 			return c13Case(s, "diag-heavy", prog, "", e, 8, fresh)
 		}))
 	}
+	// name pairs that an implementation might treat as equal (letter case, canonical
+	// equivalence, digit script, numeric suffix): each pair in one object, listed, printed,
+	// one of the two deleted, listed again — swept, not left to the random draw
+	pairs := [][2]string{{"ID", "id"}, {"Id", "id"}, {"Alpha", "alpha"}, {"\u099b\u09cb\u099f", "\u099b\u09c7\u09be\u099f"}, {"\u09ac\u09df\u09b8", "\u09ac\u09af\u09bc\u09b8"},
+		{"k2", "k10"}, {"room1", "room\u09e7"}, {"\u0998\u09b01", "\u0998\u09b0\u09e7"}, {"customer_account_name1", "customer_account_name2"}}
+	for i, pr := range pairs {
+		for _, swap := range []bool{false, true} {
+			a, b := pr[0], pr[1]
+			if swap {
+				a, b = b, a
+			}
+			prog := lines(
+				fmt.Sprintf("%s ob = {%s: 1, zeta: 3, %s: 2};", KwVar, a, b),
+				fmt.Sprintf("%s %s(ob);", KwPrint, FnKeys), fmt.Sprintf("%s %s(ob);", KwPrint, FnValues), fmt.Sprintf("%s ob;", KwPrint),
+				fmt.Sprintf("%s %s(ob);", KwPrint, FnKeys), fmt.Sprintf("%s %s(ob);", KwPrint, FnValues),
+				fmt.Sprintf("%s(ob, \"%s\");", FnDelete, a),
+				fmt.Sprintf("%s %s(ob);", KwPrint, FnKeys), fmt.Sprintf("%s %s(ob);", KwPrint, FnValues), fmt.Sprintf("%s ob;", KwPrint),
+				fmt.Sprintf("%s ob.%s;", KwPrint, a))
+			p2 := prog
+			src := &lcgSrc{x: uint64(i)*4099 + 17}
+			if swap {
+				src.x += 7
+			}
+			out = append(out, generated(src, func(s Src) *Case {
+				return c13Case(s, "name-pair", p2, "", &C13Expect{Source: "name-pair"}, 8, false)
+			}))
+		}
+	}
 	nchurn := 6
 	if tier == "thorough" {
 		nchurn = 60
